@@ -23,6 +23,13 @@ TNAMES = ['List', 'Set', 'FrozenSet', 'Dict', 'Tuple', 'Type', 'Deque', 'Default
           'Iterator', 'Awaitable', 'Coroutine', 'Callable', 'Union', 'Optional', 'Literal', 'Any']
 BUILTIN_ORIGIN = {'List': list, 'Set': set, 'FrozenSet': frozenset, 'Dict': dict, 'Tuple': tuple, 'Type': type}
 _ORIGIN2NAME = {v: k for k, v in BUILTIN_ORIGIN.items()}
+# PEP 585 spelling of the abstract collections / collections classes (spelling 'abc')
+import collections.abc as _abc
+ABC_ORIGIN = {'Iterable': _abc.Iterable, 'Collection': _abc.Collection, 'Container': _abc.Container, 'Sequence': _abc.Sequence,
+              'MutableSequence': _abc.MutableSequence, 'AbstractSet': _abc.Set, 'MutableSet': _abc.MutableSet, 'Mapping': _abc.Mapping,
+              'MutableMapping': _abc.MutableMapping, 'KeysView': _abc.KeysView, 'ValuesView': _abc.ValuesView, 'ItemsView': _abc.ItemsView,
+              'Deque': collections.deque, 'DefaultDict': collections.defaultdict, 'OrderedDict': collections.OrderedDict}
+_ABC2NAME = {v: k for k, v in ABC_ORIGIN.items()}
 
 # ------------------------------------------------------------------------------------------ user classes
 _user = {}
@@ -258,8 +265,8 @@ def render_ann(a):
     if k == 'fwd': return typing.ForwardRef(ctx_name(a[1]))
     if k == 'str': return ctx_name(a[1])
     if k == 'gen':
-        args = tuple(render_ann(x) for x in a[3])
-        base = BUILTIN_ORIGIN[a[2]] if a[1] == 'builtin' else getattr(typing, a[2])
+        args = tuple((None if x == ['cls', 'NoneType'] else render_ann(x)) for x in a[3])   # people write dict[str, None]
+        base = BUILTIN_ORIGIN[a[2]] if a[1] == 'builtin' else ABC_ORIGIN[a[2]] if a[1] == 'abc' else getattr(typing, a[2])
         return base[args if len(args) != 1 else args[0]]
     if k == 'tuplevar':
         return (tuple if a[1] == 'builtin' else typing.Tuple)[render_ann(a[2]), ...]
@@ -284,7 +291,7 @@ def reify_ann(o, top=True):
     """real annotation object -> abstract syntax; anything unrecognised becomes ['other', -1]"""
     try:
         if o is None:
-            return ['none'] if top else ['other', -1]
+            return ['none'] if top else ['cls', 'NoneType']     # typing turns a nested None into NoneType; builtin aliases keep it
         if isinstance(o, str):
             n = _name_index(o)
             return ['str', n] if (top and n is not None) else ['other', -1]
@@ -318,9 +325,12 @@ def reify_ann(o, top=True):
                 return ['callable', None, reify_ann(flat[1], False)]
             return ['callable', [reify_ann(x, False) for x in flat[:-1]], reify_ann(flat[-1], False)]
         if isinstance(o, types.GenericAlias):
-            if org not in _ORIGIN2NAME:
+            if org in _ORIGIN2NAME:
+                name, sp = _ORIGIN2NAME[org], 'builtin'
+            elif org in _ABC2NAME and type(o) is types.GenericAlias:
+                name, sp = _ABC2NAME[org], 'abc'
+            else:
                 return ['other', -1]
-            name, sp = _ORIGIN2NAME[org], 'builtin'
         elif isinstance(o, typing._GenericAlias) and org is not None and getattr(o, '_name', None) in TNAMES:
             name, sp = o._name, 'typing'
         elif isinstance(o, (typing._SpecialGenericAlias, typing._SpecialForm)) and getattr(o, '_name', None) in TNAMES:
@@ -342,7 +352,7 @@ def reify_ann(o, top=True):
 def coq_ann(a):
     k = a[0]
     L = lambda xs: '[' + '; '.join(coq_ann(x) for x in xs) + ']'
-    SP = lambda s: 'SpBuiltin' if s == 'builtin' else 'SpTyping'
+    SP = lambda s: {'builtin': 'SpBuiltin', 'abc': 'SpAbc'}.get(s, 'SpTyping')
     if k == 'none': return 'ANone'
     if k == 'cls': return f'(ACls {coq_cls(a[1])})'
     if k == 'any': return 'AAny'
